@@ -139,11 +139,12 @@ func (r *ndRun) ndNoise(t mkvs.Tree, op *ndOp) error {
 }
 
 type ndFail struct {
-	Kind string `json:"kind"`
-	Msg  string `json:"msg"`
+	Kind string    `json:"kind"`
+	Msg  string    `json:"msg"`
+	Root *ndRootID `json:"root,omitempty"` // the root the failure is about (unreadable kinds)
 }
 
-func ndFailf(kind, f string, a ...any) *ndFail { return &ndFail{kind, fmt.Sprintf(f, a...)} }
+func ndFailf(kind, f string, a ...any) *ndFail { return &ndFail{Kind: kind, Msg: fmt.Sprintf(f, a...)} }
 
 func (r *ndRun) applyOp(op *ndOp) *ndFail {
 	switch op.A {
@@ -329,13 +330,17 @@ func (r *ndRun) check(e *ndExpect) *ndFail {
 			return ndFailf("finalized-missing", "HasRoot false for finalized root v=%d %s %v", id.V, id.Ty, id.C)
 		}
 		if msg := ndReadBack(r.ctx, r.ndb, rr, id.C); msg != "" {
-			return ndFailf("finalized-unreadable", "finalized root v=%d %s %v: %s", id.V, id.Ty, id.C, msg)
+			f := ndFailf("finalized-unreadable", "finalized root v=%d %s %v: %s", id.V, id.Ty, id.C, msg)
+			f.Root = &ndRootID{id.V, id.Ty, id.C}
+			return f
 		}
 	}
 	for _, id := range e.Pending {
 		rr := r.roots[id.key()]
 		if msg := ndReadBack(r.ctx, r.ndb, rr, id.C); msg != "" {
-			return ndFailf("pending-unreadable", "pending root v=%d %s %v: %s", id.V, id.Ty, id.C, msg)
+			f := ndFailf("pending-unreadable", "pending root v=%d %s %v: %s", id.V, id.Ty, id.C, msg)
+			f.Root = &ndRootID{id.V, id.Ty, id.C}
+			return f
 		}
 	}
 	// R2: a discarded candidate is absent or reads exactly its own contents
@@ -394,6 +399,7 @@ func ndAccepts(b *ndBehaviour, backend string) bool {
 }
 
 type ndMismatch struct {
+	Origin   string   `json:"chain_origin"` // where the same-version chain of the unreadable root starts: "" (no chain) | empty | prev
 	SharedKV bool     `json:"shares_kv_with_other_root"`
 	Backend  string   `json:"backend"`
 	Step     int      `json:"step"`
@@ -402,6 +408,79 @@ type ndMismatch struct {
 	Shape    string   `json:"shape"`
 	Noisy    bool     `json:"noisy_batches"`
 	Reuse    bool     `json:"long_lived_trees"`
+}
+
+// ndOrigin follows the same-version parents of the root a failure is about back to the root the chain was started from: a
+// finalized root of the previous version ("prev": the chain's roots inherit nodes written by an earlier version) or the empty
+// tree ("empty": every node of every root of the chain was written in this version).  "" when the root is not part of a chain.
+func ndOrigin(b *ndBehaviour, upto int, root *ndRootID) string {
+	if root == nil {
+		return ""
+	}
+	o := ndOriginOf(b, upto, root)
+	if o != "" {
+		return o
+	}
+	// The root is not part of a chain itself.  Damage done by the finalization of an earlier chain (a node deleted at that
+	// version's timestamp) also shows in later roots that inherit the node, so the history's chains are named instead.
+	seenPrev, seenEmpty := false, false
+	for i := 0; i <= upto && i < len(b.Steps); i++ {
+		op := &b.Steps[i].Op
+		if op.A == "commit" && op.Parent == "same" {
+			switch ndOriginOf(b, upto, &ndRootID{op.V, op.Ty, op.C}) {
+			case "prev":
+				seenPrev = true
+			case "empty":
+				seenEmpty = true
+			}
+		}
+	}
+	switch {
+	case seenPrev:
+		return "hist-prev"
+	case seenEmpty:
+		return "hist-empty"
+	}
+	return ""
+}
+
+func ndOriginOf(b *ndBehaviour, upto int, root *ndRootID) string {
+	inChain := false
+	cur := mustJSON(root.C)
+	for hops := 0; hops < 16; hops++ {
+		var op *ndOp
+		for i := 0; i <= upto && i < len(b.Steps); i++ {
+			o := &b.Steps[i].Op
+			if o.A == "commit" && o.V == root.V && o.Ty == root.Ty && bytes.Equal(mustJSON(o.C), cur) {
+				op = o
+				break
+			}
+		}
+		if op == nil {
+			return "?"
+		}
+		if op.Parent != "same" {
+			// is the root the parent of another candidate of its version?
+			if !inChain {
+				for i := 0; i <= upto && i < len(b.Steps); i++ {
+					o := &b.Steps[i].Op
+					if o.A == "commit" && o.V == root.V && o.Ty == root.Ty && o.Parent == "same" && bytes.Equal(mustJSON(o.PC), mustJSON(root.C)) {
+						inChain = true
+					}
+				}
+			}
+			if !inChain {
+				return ""
+			}
+			if op.Parent == "prev" && len(op.PC) == 0 {
+				return "empty" // derived from a previous root without contents: nothing inherited
+			}
+			return op.Parent
+		}
+		inChain = true
+		cur = mustJSON(op.PC)
+	}
+	return "?"
 }
 
 // ndShape names the history shape of a failure (used to match known findings narrowly).
@@ -497,10 +576,10 @@ func ndRunBehaviour(b *ndBehaviour, backend, dir string, noisy bool, reuse ...bo
 				f = r.check(&b.Steps[i].Expect)
 			}
 		}); perr != nil {
-			f = &ndFail{"panic", perr.Error()}
+			f = &ndFail{Kind: "panic", Msg: perr.Error()}
 		}
 		if f != nil {
-			return &ndMismatch{Backend: backend, Step: i, Fail: f, Steps: b.Steps[:i+1], Shape: ndShape(b, i), SharedKV: ndSharesKV(b, i)}, n
+			return &ndMismatch{Backend: backend, Step: i, Fail: f, Steps: b.Steps[:i+1], Shape: ndShape(b, i), SharedKV: ndSharesKV(b, i), Origin: ndOrigin(b, i, f.Root)}, n
 		}
 	}
 	return nil, n
@@ -610,6 +689,9 @@ func nodedbReplay(args []string) int {
 					nSteps += n
 					if m != nil {
 						cl := fmt.Sprintf("%s:%s:sharedkv=%v:%s", be, m.Fail.Kind, m.SharedKV, m.Shape)
+						if m.Origin != "" {
+							cl += ",origin=" + m.Origin
+						}
 						if m.Fail.Kind == "error" {
 							cl = fmt.Sprintf("%s:declined:%s:%s", be, b.Steps[m.Step].Op.A, firstWords(m.Fail.Msg))
 						}
